@@ -51,7 +51,7 @@ def run(ctx, F, dm=True):
     n = ereduce.run(ctx, F)
     ctx.floor("E-TABLE.reduce", "abstract situations of the reduce functions", n, 400)
     n = edef.run(ctx, F)
-    ctx.floor("E-TABLE.defaults", "interpreted default-method situations", n, 26)
+    ctx.floor("E-TABLE.defaults", "interpreted default-method situations", n, 29)
     n = elin.check_removal_guards(ctx, F)
     ctx.floor("E-LIN.rcguard", "try_remove_node bodies", n, 2)
     ecanon.check_id_split(ctx, F)
